@@ -243,14 +243,11 @@ def fulle [HasIx α] [Asin α] [FlatConst α] (v : Array String) : String :=
   let (evs, attrs) : List (IdEv α) × List (Nat × List α) := rdEvents v nattr (rdNat v 9) 10
   let store : Nat → List α := fun id => ((attrs.find? (fun a => a.1 == id)).map (·.2)).getD []
   let e := Env.new o HasIx.ix
-  -- `tessellate_fw`: fixed width forced, ids count the events, no attribute store
-  let eFw : Env α := { e with o := { e.o with varWidth := false } }
   let r := if fwIds then tessellateFw e (evs.map toPathEv) else tessellateIds e store evs
   match r with
   | some out =>
-    let attrs := if fwIds then attrsSeq (fun _ => []) (capRanges eFw (fun _ => []) (assignIds (evs.map toPathEv) 0)) out.verts 0 ⟨false, []⟩
-                 else attrsSeq store (capRanges e store evs) out.verts 0 ⟨false, []⟩
-    fOutAttrs attrs out
+    -- `tessellate_fw` has no attribute store
+    fOutAttrs (attrsSeq (if fwIds then fun _ => [] else store) out.verts ⟨false, []⟩) out
   | none => "panic"
 
 end Full
